@@ -339,49 +339,40 @@ def build(case, kind: str, *, auto_alias=False, backend: Backend | None = None, 
                 res.error = (k, ex)
                 break
             res.subq.append(k)
-            # which input needs the alias?  try left first, then right
             n_alias += 1
-            inp = st["in"]
-            new_var = f"{inp}~a{n_alias}"
-            alias_step = {"out": new_var, "verb": "alias", "in": inp, "keep": True, "_auto": True}
-            st2 = dict(st)
-            st2["in"] = new_var
-            try:
-                b.step(alias_step)
-                b.step(st2)
-                st2["_aliased"] = True
-                steps[k : k + 1] = [alias_step, st2]
-                k += 2
-                continue
-            except SubqueryError as ex2:
-                if "right" in st:
-                    rv = st["right"]
-                    new_r = f"{rv}~a{n_alias}r"
-                    alias_r = {"out": new_r, "verb": "alias", "in": rv, "keep": True, "_auto": True}
-                    # try: only right aliased, then both
-                    for variant in ("right", "both"):
-                        st3 = dict(st)
-                        st3["right"] = new_r
-                        pre = [alias_r]
-                        if variant == "both":
-                            st3["in"] = new_var
-                            pre = [alias_step, alias_r]
-                        try:
-                            for p in pre:
-                                b.step(p)
-                            b.step(st3)
-                            st3["_aliased"] = True
-                            steps[k : k + 1] = pre + [st3]
-                            k += len(pre) + 1
-                            break
-                        except SubqueryError as ex3:
-                            last = ex3
-                    else:
-                        res.error = (k, last)
-                        break
+            variants = [("in",)]
+            if "right" in st:
+                variants += [("right",), ("in", "right")]
+            done, last = False, ex
+            for variant in variants:
+                pre, st2 = [], dict(st)
+                for side in variant:
+                    old = st[side]
+                    new_var = f"{old}~a{n_alias}{side[0]}"
+                    pre.append({"out": new_var, "verb": "alias", "in": old, "keep": True, "_auto": True})
+                    st2[side] = new_var
+                try:
+                    for p in pre:
+                        b.step(p)
+                    b.step(st2)
+                except SubqueryError as ex2:
+                    last = ex2
                     continue
-                res.error = (k, ex2)
+                except Exception as ex2:  # noqa: BLE001
+                    res.error = (k, ex2)
+                    steps[k : k + 1] = pre + [st2]
+                    break
+                st2["_aliased"] = True
+                steps[k : k + 1] = pre + [st2]
+                k += len(pre) + 1
+                done = True
                 break
+            if res.error is not None:
+                break
+            if not done:
+                res.error = (k, last)
+                break
+            continue
         except Exception as ex:  # noqa: BLE001 - recorded, classified by the check
             res.error = (k, ex)
             break
@@ -395,3 +386,13 @@ def build(case, kind: str, *, auto_alias=False, backend: Backend | None = None, 
 def export_polars(tbl):
     pdt, _, _ = _mods()
     return tbl >> pdt.export(pdt.Polars())
+
+
+def export_polars_noopt(tbl):
+    """Collect the lazy plan without the Polars optimizer (to tell optimizer bugs of the engine
+    from defects of the library, DESIGN §4.15)."""
+    import polars as pl
+
+    pdt, _, _ = _mods()
+    lf = tbl >> pdt.export(pdt.Polars(lazy=True))
+    return lf.collect(optimizations=pl.QueryOptFlags.none())
